@@ -1,8 +1,9 @@
 // Driver for C18 (partial: parallel multi-signature check, Merkle root, VM integer codec).
-//   multisig_test.go  part (a)  TLC delivery orders replayed on vm.CheckMultisigPar through the gate hook
-//   this file         part (b)  root terms printed by Merkle.tla evaluated with SHA-256 and compared with the code
-//                     part (c)  cases printed by IntCodecMC.tla compared with pkg/encoding/bigint, and a trace
-//                               of real codec outputs for IntCodecTrace.tla
+//
+//	multisig_test.go  part (a)  TLC delivery orders replayed on vm.CheckMultisigPar through the gate hook
+//	this file         part (b)  root terms printed by Merkle.tla evaluated with SHA-256 and compared with the code
+//	                  part (c)  cases printed by IntCodecMC.tla compared with pkg/encoding/bigint, and a trace
+//	                            of real codec outputs for IntCodecTrace.tla
 package c18crypto
 
 import (
@@ -290,26 +291,43 @@ type intRun struct {
 	vmN int
 }
 
-// observeInt records what the real encoder does with x.
+// observeInt records what the real encoder does with x.  The code under test only ever sees private copies
+// of x: ToPreallocatedBytes works on the argument's words in place, and a copy it left damaged must not be
+// touched again by the harness (only its raw words are compared).
 func (ir *intRun) observeInt(x *big.Int, src string) (out []byte, ok bool) {
 	rep := map[string]any{"x": x.String(), "src": src}
 	ok = guard(ir.res, "intcodec", "bigint.ToBytes", rep, func() {
-		keep := new(big.Int).Set(x)
-		out = bigint.ToBytes(x)
-		pre := bigint.ToPreallocatedBytes(x, make([]byte, 0, 4))
-		pre2 := bigint.ToPreallocatedBytes(x, make([]byte, 40))
+		same := true
+		arg := func() *big.Int {
+			c := new(big.Int).Set(x)
+			return c
+		}
+		intact := func(c *big.Int) {
+			same = same && c.Sign() == x.Sign() && slices.Equal(c.Bits(), x.Bits())
+		}
+		c1 := arg()
+		out = bigint.ToBytes(c1)
+		intact(c1)
+		c2 := arg()
+		pre := bigint.ToPreallocatedBytes(c2, make([]byte, 0, 4))
+		intact(c2)
+		c3 := arg()
+		pre2 := bigint.ToPreallocatedBytes(c3, make([]byte, 40))
+		intact(c3)
 		if !bytes.Equal(pre, pre2) {
 			pre = pre2 // report the one that differs from ToBytes, if any
 		}
 		ev := map[string]any{"event": "int", "src": src, "out": ints(out), "pre": ints(pre), "hasitem": false, "item": []int{}}
 		if fitsVM(x) {
+			c4 := arg()
 			ev["hasitem"] = true
-			ev["item"] = ints(stackitem.NewBigInteger(x).Bytes())
+			ev["item"] = ints(stackitem.NewBigInteger(c4).Bytes())
+			intact(c4)
 		}
 		back := bigint.FromBytes(pad(out, false, 0))
 		ev["back"] = signMag(back)
-		ev["same"] = x.Cmp(keep) == 0 && slices.Equal(x.Bits(), keep.Bits())
-		ev["x"] = signMag(keep)
+		ev["same"] = same
+		ev["x"] = signMag(x)
 		ir.tr.Emit(ev)
 		ir.res.Count([]any{"int", x.String()})
 	})
@@ -325,7 +343,7 @@ func (ir *intRun) observeBytes(b []byte, src string) (v *big.Int, re []byte, ok 
 			in = []byte{}
 		}
 		v = bigint.FromBytes(in)
-		re = bigint.ToBytes(v)
+		re = bigint.ToBytes(new(big.Int).Set(v)) // on a copy: the encoder works on its argument's words in place
 		ir.tr.Emit(map[string]any{"event": "bytes", "src": src, "b": ints(b), "v": signMag(v), "re": ints(re)})
 		ir.res.Count([]any{"bytes", fmt.Sprintf("%x", b)})
 	})
